@@ -41,6 +41,33 @@ def check(run, prog, tier):
     rule_U4(run, prog)
     rule_U5(run, prog)
     rule_U6(run, prog)
+    run.rule("C05-U7", "methods that compute under energy_units('int') read units-managed properties only inside "
+                       "that protection", minimum=1)
+    rule_U7(run, prog)
+
+
+def rule_U7(run, prog):
+    """A units-managed property returns its value in the units current for the caller.  A method that
+    wraps its computation in energy_units('int') does so because what it builds (an axis, a stored
+    number) is kept in internal units; a managed read left outside the block hands it a number in
+    the caller's units, so the stored value depends on the context of the call."""
+    from .. import unitflow
+    rid = "C05-U7"
+    n = 0
+    for m_ in sorted(prog.modules.values(), key=lambda x: x.relpath):
+        for c in m_.classes.values():
+            for fn, nprot, outside in unitflow.unprotected_managed_reads(prog, c):
+                n += 1
+                prog.consulted.add(fn.relpath)
+                run.obligation(rid, fn.short, not outside, key="protected-reads",
+                               message="%s computes under energy_units('int') but reads the units-managed %s outside "
+                                       "that block: the value is in the caller's units while everything else in the "
+                                       "method is internal" % (fn.short, sorted({"self." + x.attr for x in outside})),
+                               loc=fn.loc(outside[0]) if outside else fn.loc(),
+                               sample={"method": fn.short, "protected_reads": nprot})
+    if n < 1:
+        raise AnalysisError("no self-protecting method with units-managed reads found (FrequencyAxis.get_TimeAxis "
+                            "was confirmed by hand)")
 
 
 def _module_level_functions(prog):
